@@ -131,42 +131,119 @@ def find_chains(p: Program, r: Resolver, fi: FuncInfo) -> List[_Chain]:
     return chains
 
 
-def _normalisation(r: Resolver, fi: FuncInfo, chain: _Chain) -> str:
-    """Effect of assignments to the label parameter that precede the chain:
-    'none' | 'to_text' | 'to_member'.  Unknown assignment forms raise AnalysisError."""
-    mode = "none"
+def _eval_label_expr(r: Resolver, fi: FuncInfo, e: ast.AST, var: str, form: str, enum: ClassInfo, depth: int = 0) -> Optional[str]:
+    """Abstract value ('member' | 'text') of expression e when variable `var` holds a label of the given form; None = not understood."""
+    if isinstance(e, ast.Name) and e.id == var:
+        return form
+    if isinstance(e, ast.Attribute) and e.attr == "value" and isinstance(e.value, ast.Name) and e.value.id == var:
+        return "text" if form == "member" else None          # a str has no .value: would raise
+    if isinstance(e, ast.Call):
+        fn = e.func
+        if isinstance(fn, ast.Name) and fn.id == "getattr" and len(e.args) == 3 and _names_param(e.args[0], var) \
+                and isinstance(e.args[1], ast.Constant) and e.args[1].value == "value":
+            if form == "member":
+                return "text"
+            return _eval_label_expr(r, fi, e.args[2], var, form, enum, depth)
+        b = r.resolve_static(fi, fi.module, fn) if isinstance(fn, (ast.Name, ast.Attribute)) else None
+        if b is not None and b.kind == "class" and b.target is enum and len(e.args) == 1 and _names_param(e.args[0], var):
+            return "member"
+        if b is not None and b.kind == "func" and depth < 2 and len(e.args) >= 1 and _names_param(e.args[0], var):
+            g: FuncInfo = b.target
+            if not isinstance(g.node, ast.Lambda) and g.pos_params:
+                return _eval_label_function(r, g, g.pos_params[0], form, enum, depth + 1)
+        return None
+    if isinstance(e, ast.IfExp):
+        c = _eval_label_test(r, fi, e.test, var, form, enum)
+        if c is None:
+            return None
+        return _eval_label_expr(r, fi, e.body if c else e.orelse, var, form, enum, depth)
+    return None
+
+
+def _eval_label_test(r: Resolver, fi: FuncInfo, t: ast.AST, var: str, form: str, enum: ClassInfo) -> Optional[bool]:
+    if isinstance(t, ast.UnaryOp) and isinstance(t.op, ast.Not):
+        v = _eval_label_test(r, fi, t.operand, var, form, enum)
+        return None if v is None else not v
+    if isinstance(t, ast.Call) and isinstance(t.func, ast.Name) and t.func.id == "hasattr" and len(t.args) == 2 and _names_param(t.args[0], var) \
+            and isinstance(t.args[1], ast.Constant) and t.args[1].value == "value":
+        return form == "member"
+    if isinstance(t, ast.Call) and isinstance(t.func, ast.Name) and t.func.id == "isinstance" and len(t.args) == 2 and _names_param(t.args[0], var):
+        cls = t.args[1]
+        if isinstance(cls, ast.Name) and cls.id == "str":
+            return form == "text"
+        b = r.resolve_static(fi, fi.module, cls) if isinstance(cls, (ast.Name, ast.Attribute)) else None
+        if b is not None and b.kind == "class" and b.target is enum:
+            return form == "member"
+        if b is not None and b.kind == "ext" and b.target.split(".")[-1] == "Enum":
+            return form == "member"
+    return None
+
+
+def _eval_label_function(r: Resolver, g: FuncInfo, var: str, form: str, enum: ClassInfo, depth: int) -> Optional[str]:
+    """result form of a small normalising helper: a sequence of `if <test on var>: return <expr>` and a final `return <expr>`"""
+    for st in g.node.body:
+        if isinstance(st, ast.Expr) and isinstance(st.value, ast.Constant):
+            continue
+        if isinstance(st, ast.Return):
+            return _eval_label_expr(r, g, st.value, var, form, enum, depth) if st.value is not None else None
+        if isinstance(st, ast.If):
+            c = _eval_label_test(r, g, st.test, var, form, enum)
+            if c is None:
+                return None
+            blk = st.body if c else st.orelse
+            for s2 in blk:
+                if isinstance(s2, ast.Return):
+                    return _eval_label_expr(r, g, s2.value, var, form, enum, depth) if s2.value is not None else None
+                return None
+            continue
+        return None
+    return None
+
+
+def _normalisation(r: Resolver, fi: FuncInfo, chain: _Chain) -> Dict[str, str]:
+    """Effect of the statements that precede the chain on the label parameter, per incoming form:
+    {'member': form at the chain, 'text': form at the chain}.  Unknown assignment forms raise AnalysisError."""
+    cur = {"member": "member", "text": "text"}
+    var = chain.param
     for n in body_nodes(fi):
         if getattr(n, "lineno", 10**9) >= chain.first_if.lineno:
             continue
-        if isinstance(n, ast.Assign) and any(isinstance(t, ast.Name) and t.id == chain.param for t in n.targets):
-            v = n.value
-            # P = getattr(P, "value", P)
-            if isinstance(v, ast.Call) and isinstance(v.func, ast.Name) and v.func.id == "getattr" and len(v.args) == 3 \
-                    and _names_param(v.args[0], chain.param) and isinstance(v.args[1], ast.Constant) and v.args[1].value == "value" \
-                    and _names_param(v.args[2], chain.param):
-                mode = "to_text"
+        if isinstance(n, ast.Assign) and any(isinstance(t, ast.Name) and t.id == var for t in n.targets):
+            # skip assignments nested in a guarded normalisation handled below
+            new = {}
+            for inc, f0 in cur.items():
+                res = _eval_label_expr(r, fi, n.value, var, f0, chain.enum)
+                if res is None:
+                    raise AnalysisError(f"{fi.loc}: unrecognised normalisation of label parameter: {norm_stmt(n)}")
+                new[inc] = res
+            if _inside_guard(fi, n, var):
                 continue
-            # P = P.value if isinstance(P, Enum) else P
-            if isinstance(v, ast.IfExp) and isinstance(v.body, ast.Attribute) and v.body.attr == "value" and _names_param(v.body.value, chain.param) \
-                    and _names_param(v.orelse, chain.param) and isinstance(v.test, ast.Call) and isinstance(v.test.func, ast.Name) \
-                    and v.test.func.id == "isinstance":
-                mode = "to_text"
-                continue
-            # P = Enum(P)
-            if isinstance(v, ast.Call) and len(v.args) == 1 and _names_param(v.args[0], chain.param):
-                b = r.resolve_static(fi, fi.module, v.func)
-                if b is not None and b.kind == "class" and b.target is chain.enum:
-                    mode = "to_member"
-                    continue
-            raise AnalysisError(f"{fi.loc}: unrecognised normalisation of label parameter: {norm_stmt(n)}")
+            cur = new
         if isinstance(n, ast.If):
-            # guarded normalisation:  if isinstance(P, Enum): P = P.value
+            # guarded normalisation:  if isinstance(P, Enum) / hasattr(P, "value"):  P = P.value
             for s2 in n.body:
-                if isinstance(s2, ast.Assign) and any(isinstance(t, ast.Name) and t.id == chain.param for t in s2.targets):
-                    if isinstance(s2.value, ast.Attribute) and s2.value.attr == "value" and _names_param(s2.value.value, chain.param) \
-                            and isinstance(n.test, ast.Call) and isinstance(n.test.func, ast.Name) and n.test.func.id == "isinstance":
-                        mode = "to_text"
-    return mode
+                if isinstance(s2, ast.Assign) and any(isinstance(t, ast.Name) and t.id == var for t in s2.targets):
+                    new = {}
+                    for inc, f0 in cur.items():
+                        c = _eval_label_test(r, fi, n.test, var, f0, chain.enum)
+                        if c is None:
+                            raise AnalysisError(f"{fi.loc}: unrecognised guard of a label normalisation: {norm_stmt(n.test)}")
+                        if c:
+                            res = _eval_label_expr(r, fi, s2.value, var, f0, chain.enum)
+                            if res is None:
+                                raise AnalysisError(f"{fi.loc}: unrecognised normalisation of label parameter: {norm_stmt(s2)}")
+                            new[inc] = res
+                        else:
+                            new[inc] = f0
+                    cur = new
+    return cur
+
+
+def _inside_guard(fi: FuncInfo, node: ast.AST, var: str) -> bool:
+    for n in body_nodes(fi):
+        if isinstance(n, ast.If) and any(node is x for s2 in n.body for x in ast.walk(s2)):
+            return True
+    return False
 
 
 def check_dispatch(ctx: CheckContext, p: Program, r: Resolver, rule: str = "DISPATCH") -> int:
@@ -191,11 +268,7 @@ def check_dispatch(ctx: CheckContext, p: Program, r: Resolver, rule: str = "DISP
             per_enum.setdefault(ch.enum, []).append((fi, dedicated))
             for m in members:
                 for form in ("member", "text"):
-                    eff_form = form
-                    if mode == "to_text":
-                        eff_form = "text"
-                    elif mode == "to_member":
-                        eff_form = "member"
+                    eff_form = mode[form]
                     reached = None
                     for i, acc in enumerate(branch_accepts):
                         if acc is None:
@@ -214,7 +287,7 @@ def check_dispatch(ctx: CheckContext, p: Program, r: Resolver, rule: str = "DISP
                     ctx.ob(rule, key, f"{fi.module.relpath}:{ch.first_if.lineno}", ok,
                            "" if ok else f"label {ch.enum.name}.{m} given as {form} does not reach its own branch in {fi.name} "
                                          f"(falls through to {'the else branch' if ch.has_else else 'no branch'})",
-                           normalisation=mode)
+                           normalisation=f"member->{mode['member']}, text->{mode['text']}")
     # sibling coverage: dispatchers over the same enum must have a dedicated branch for the same members
     for enum, lst in per_enum.items():
         if len(lst) < 2:
@@ -258,9 +331,31 @@ def check_lmtd_guard(ctx: CheckContext, p: Program, r: Resolver, rule: str = "LM
         n += 1
         guarded = set()
         weak = []
+        pre: List[ast.stmt] = []
         for st in fi.node.body:
             if st is log_stmt:
                 break
+            pre.append(st)
+        # a call of a module function whose body is such a guard counts, with its parameters mapped to our arguments
+        expanded: List[Tuple[ast.stmt, Dict[str, str]]] = []
+        for st in pre:
+            if isinstance(st, ast.Expr) and isinstance(st.value, ast.Call):
+                for t in r.resolve_call(fi, st.value):
+                    if isinstance(t, FuncInfo) and t.module is fi.module and not isinstance(t.node, ast.Lambda):
+                        mp: Dict[str, str] = {}
+                        for i, a in enumerate(st.value.args):
+                            if isinstance(a, ast.Name) and i < len(t.pos_params):
+                                mp[t.pos_params[i]] = a.id
+                        for k in st.value.keywords:
+                            if k.arg and isinstance(k.value, ast.Name):
+                                mp[k.arg] = k.value.id
+                        for s2 in t.node.body:
+                            expanded.append((s2, mp))
+            else:
+                expanded.append((st, {}))
+        for st, mp in expanded:
+            if mp:
+                params_here = list(mp)
             if isinstance(st, ast.If) and st.body and isinstance(st.body[-1], ast.Raise) and not st.orelse:
                 disj = st.test.values if isinstance(st.test, ast.BoolOp) and isinstance(st.test.op, ast.Or) else [st.test]
                 if isinstance(st.test, ast.BoolOp) and isinstance(st.test.op, ast.And):
@@ -276,7 +371,7 @@ def check_lmtd_guard(ctx: CheckContext, p: Program, r: Resolver, rule: str = "LM
                             cur = e
                             while True:
                                 if isinstance(cur, ast.Name):
-                                    return {cur.id} if cur.id in params else set()
+                                    return {cur.id} if (cur.id in params or cur.id in mp) else set()
                                 if isinstance(cur, ast.Call) and isinstance(cur.func, ast.Attribute):
                                     if isinstance(cur.func.value, ast.Name) and cur.func.value.id in ("np", "numpy", "math") and cur.func.attr in ok_np and cur.args:
                                         cur = cur.args[0]
@@ -293,10 +388,11 @@ def check_lmtd_guard(ctx: CheckContext, p: Program, r: Resolver, rule: str = "LM
                             return isinstance(e, ast.Constant) and isinstance(e.value, (int, float)) and e.value == 0
                         def tiny(e):
                             return isinstance(e, ast.Constant) and isinstance(e.value, (int, float)) and 0 < e.value <= 1e-3
+                        back = (lambda S: {mp.get(x, x) for x in S}) if mp else (lambda S: S)
                         if (isinstance(op, ast.LtE) and zero(rr)) or (isinstance(op, ast.Lt) and tiny(rr)):
-                            guarded |= names(l)
+                            guarded |= back(names(l))
                         elif (isinstance(op, ast.GtE) and zero(l)) or (isinstance(op, ast.Gt) and tiny(l)):
-                            guarded |= names(rr)
+                            guarded |= back(names(rr))
                         elif isinstance(op, (ast.Lt, ast.Gt)):
                             weak.append(norm_stmt(d))
         for pn in log_params:
